@@ -1244,3 +1244,73 @@ fn C14_C16_largest_transport_messages() {
     }
     assert_eq!(bad, 0);
 }
+
+#[test]
+fn C17_failing_calls_never_change_the_reported_remote_static() {
+    let mut bad = 0;
+    for e in TABLE.iter() {
+        for suffix in ["", "psk0", "psk2"] {
+            let nh = e.3.len(); if suffix == "psk2" && nh < 2 { continue; }
+            let name = format!("Noise_{}{}_25519_ChaChaPoly_SHA256", e.0, suffix); let c = cfg(&name);
+            let (mut i, mut r) = upto(&c, 0, false);
+            let mut buf = vec![0u8; 2000]; let mut p = vec![0u8; 2000];
+            for k in 0..=nh {
+                // failing calls of every kind on both parties; the reported key must not move
+                for (who, hs) in [("initiator", &mut i), ("responder", &mut r)] {
+                    let before = hs.get_remote_static().map(|x| x.to_vec());
+                    let _ = hs.write_message(&[7u8; 10], &mut buf[..1]); let _ = hs.write_message(&vec![0u8; 65535], &mut vec![0u8; 70000]);
+                    let _ = hs.read_message(&[0u8; 3], &mut p); let _ = hs.read_message(&vec![0u8; 65536], &mut p);
+                    let after = hs.get_remote_static().map(|x| x.to_vec());
+                    let peer = if who == "initiator" { &c.sr.1 } else { &c.si.1 };
+                    if after != before && after.as_deref() != Some(&peer[..]) { finding("C17", format!("{}: before message {} failing calls (undersized / oversize write, short / oversize read) changed the {}'s get_remote_static() from {:?} to {:?}", name, k, who, before.as_deref().map(hexs), after.as_deref().map(hexs))); bad += 1; }
+                }
+                if k == nh { break; }
+                let (w, rd) = if k % 2 == 0 { (&mut i, &mut r) } else { (&mut r, &mut i) };
+                let n = match w.write_message(&hs_payload(k), &mut buf) { Ok(n) => n, Err(e2) => { finding("C07", format!("{}: after failing calls the write of message {} returns {:?}", name, k, e2)); bad += 1; break; } };
+                if let Err(e2) = rd.read_message(&buf[..n], &mut p) { finding("C07", format!("{}: after failing calls the genuine message {} is rejected with {:?}", name, k, e2)); bad += 1; break; }
+            }
+            if bad >= 4 { break; }
+        }
+        if bad >= 4 { break; }
+    }
+    assert_eq!(bad, 0);
+}
+#[test]
+fn C08_psk_is_bound_even_across_failed_calls_and_retries() {
+    let mut bad = 0;
+    let (ka, kb, kz) = ([0xA1u8; 32], [0xB2u8; 32], [0u8; 32]);
+    for name in ["Noise_NNpsk0_25519_ChaChaPoly_SHA256", "Noise_NNpsk2_25519_ChaChaPoly_SHA256", "Noise_XXpsk3_25519_AESGCM_SHA256", "Noise_IKpsk1_25519_ChaChaPoly_BLAKE2s", "Noise_Npsk0_25519_ChaChaPoly_SHA256", "Noise_KKpsk0_25519_AESGCM_SHA512", "Noise_XXpsk0+psk3_25519_ChaChaPoly_SHA256"] {
+        let nh = table_entry(&base_pattern(name)).3.len();
+        // every write is first attempted into a buffer that is too small, every read is first attempted on a corrupted copy and
+        // (when it fails) retried `retries` times with the genuine bytes
+        let run = |ki: [u8; 32], kr: [u8; 32], retries: usize| -> Result<Vec<u8>, String> {
+            let mut ci = cfg(name); ci.psk = ki; let mut cr = cfg(name); cr.psk = kr;
+            let (mut i, mut r) = (build(&ci, true, None).map_err(|e| format!("{:?}", e))?, build(&cr, false, None).map_err(|e| format!("{:?}", e))?);
+            let mut buf = vec![0u8; 2000]; let mut p = vec![0u8; 2000]; let mut all = vec![];
+            for j in 0..nh {
+                let (w, rd) = if j % 2 == 0 { (&mut i, &mut r) } else { (&mut r, &mut i) };
+                for small in [0usize, 1, 33] { let _ = w.write_message(&hs_payload(j), &mut buf[..small]); }
+                let n = w.write_message(&hs_payload(j), &mut buf).map_err(|e| format!("write {} {:?}", j, e))?;
+                let mut bad_copy = buf[..n].to_vec(); bad_copy[n - 1] ^= 4; let _ = rd.read_message(&bad_copy, &mut p);
+                let mut res = rd.read_message(&buf[..n], &mut p);
+                for _ in 0..retries { if res.is_ok() { break; } res = rd.read_message(&buf[..n], &mut p); }
+                res.map_err(|e| format!("read {} {:?}", j, e))?;
+                all.extend_from_slice(&buf[..n]);
+            }
+            all.extend_from_slice(i.get_handshake_hash()); Ok(all)
+        };
+        let clean = { let c = { let mut c = cfg(name); c.psk = kb; c }; transcript_hs(&c) };
+        match (run(kb, kb, 0), clean) { (Ok(a), Ok(b)) => if a != b { finding("C07", format!("{}: with failed writes and rejected reads before each step the psk handshake produces different bytes", name)); bad += 1; }, (a, b) => { finding("C07", format!("{}: psk handshake with failed calls and retries does not complete: {:?} / {:?}", name, a.err(), b.err())); bad += 1; } }
+        for (what, ki, kr) in [("A against B", ka, kb), ("B against the all-zero psk", kb, kz), ("the all-zero psk against A", kz, ka)] {
+            if run(ki, kr, 3).is_ok() { finding("C08", format!("{}: the parties hold different PSKs ({}), yet after failed calls and repeated reads of the same message the handshake completes", name, what)); bad += 1; }
+        }
+    }
+    assert_eq!(bad, 0);
+}
+fn transcript_hs(c: &Cfg) -> Result<Vec<u8>, String> {
+    let nh = table_entry(&base_pattern(&c.name)).3.len();
+    let (mut i, mut r) = (build(c, true, None).map_err(|e| format!("{:?}", e))?, build(c, false, None).map_err(|e| format!("{:?}", e))?);
+    let mut buf = vec![0u8; 2000]; let mut p = vec![0u8; 2000]; let mut all = vec![];
+    for j in 0..nh { let (w, rd) = if j % 2 == 0 { (&mut i, &mut r) } else { (&mut r, &mut i) }; let n = w.write_message(&hs_payload(j), &mut buf).map_err(|e| format!("write {} {:?}", j, e))?; rd.read_message(&buf[..n], &mut p).map_err(|e| format!("read {} {:?}", j, e))?; all.extend_from_slice(&buf[..n]); }
+    all.extend_from_slice(i.get_handshake_hash()); Ok(all)
+}
